@@ -41,6 +41,7 @@ def judge (stream : String) (kv : KV) : Option Verdict :=
   | "vi" => some (ViSpec.judge 0 kv)
   | "vi07" => some (ViSpec.judge 7 kv)
   | "vi13" => some (ViSpec.judge 13 kv)
+  | "vi19" => some (ViSpec.judge 19 kv)
   | "vi09" => some (ViSpec.judge09 kv)
   | "vi08" => some (ViSpec08.judge kv)
   | "lops04" => some (LbufD.judgeLops 4 kv)
